@@ -186,6 +186,24 @@ func (a *act) safeSpec(c *Clause, env *SEnv, st *State) string {
 // loopFrames: with a loopmodifies clause, heap arrays written in the loop keep the loop-entry contents at every
 // object that existed at loop entry and is not listed.
 func (a *act) loopFrames(li *loopInfo, st *State) []string {
+	out := a.loopFrames0(li, st)
+	if li.spec != nil && len(li.spec.Keeps) > 0 {
+		fx := a.fx
+		env := a.invEnv(li, li.entryState)
+		for _, it := range fx.modItems(li.spec.Keeps, env, li.entryState) {
+			cur := fx.sv(st, it.heap, it.sort)
+			old := fx.sv(li.entryState, it.heap, it.sort)
+			if it.obj == "" {
+				out = append(out, Eq(cur, old))
+			} else {
+				out = append(out, Eq(Sel(cur, it.obj), Sel(old, it.obj)))
+			}
+		}
+	}
+	return out
+}
+
+func (a *act) loopFrames0(li *loopInfo, st *State) []string {
 	if li.spec != nil && li.spec.FreshOnly {
 		// declared: the loop only modifies objects allocated after function entry
 		var out []string
@@ -516,6 +534,16 @@ func (a *act) applyContract(sp *FuncSpec, fn *ssa.Function, m *types.Func, args 
 	if fx.lockMode {
 		reqs = append(append([]*Clause{}, reqs...), sp.LockRequires...)
 		enss = append(append([]*Clause{}, enss...), sp.LockEnsures...)
+	}
+	if len(sp.Assumes) > 0 {
+		enss = append(append([]*Clause{}, enss...), sp.Assumes...)
+		for _, c := range sp.Assumes {
+			name := c.Name
+			if name == "" {
+				name = c.Text
+			}
+			fx.eng.assume("assumed postcondition of " + sp.Key + ": " + name)
+		}
 	}
 	for i, r := range reqs {
 		t := fx.specTerm(r.X, env, pre, pre, sp.Pkg)
